@@ -100,10 +100,10 @@ def make_comm_program(cfg):
     def program(rank, world):
         from kfac.distributed import Future, TorchDistributedCommunicator
 
-        sub = dist.new_group(list(range(world_n - 1))) if world_n > 2 \
+        # a sub-group whose group-local ranks differ from the global ones
+        sub = dist.new_group(list(range(1, world_n))) if world_n > 2 \
             else None
-        groups = [None] + ([sub] if sub is not None and rank < world_n - 1
-                           else [])
+        groups = [None] + ([sub] if sub is not None and rank >= 1 else [])
         tdc = TorchDistributedCommunicator(bucket_cap_mb=(cap + 0.5) / 1e6)
         out = []
         world.set_digest(lambda: _dg(out, tdc))
@@ -130,7 +130,7 @@ def make_comm_program(cfg):
                         out.append(('bucketed', n, gi, layout, avg, w(fa),
                                     w(fb)))
                     members = list(range(world_n)) if g is None else \
-                        list(range(world_n - 1))
+                        list(range(1, world_n))
                     for src in (members[0], members[-1]):
                         xs = x.clone() if rank == src else \
                             torch.zeros_like(x).contiguous()
@@ -153,7 +153,7 @@ def comm_oracle(cfg):
         for rank, out in enumerate(world.results):
             for kind, n, gi, layout, flag, a, b in out or []:
                 members = list(range(world_n)) if gi == 0 else \
-                    list(range(world_n - 1))
+                    list(range(1, world_n))
                 if kind == 'broadcast':
                     exp = comm_data(flag, n, dtype, n % 3, seed)
                 else:
